@@ -1,5 +1,6 @@
 import ErrModel.Proofs.EngineBasic
 import ErrModel.Proofs.Regular
+import ErrModel.Proofs.TextEq
 /-
   C09 — Formatting verbs are mutually consistent.
 
@@ -113,6 +114,9 @@ theorem exE_reg : RegE exE := by
   · have : stripMarkers (b!"ctx") = b!"ctx" := by decide
     rw [this]; simp [NlOKb, nl]
 example : render false false exE = b!"ctx: " ++ exLeaf := by rw [C09_v_is_error _ exE_reg, exE_text]
+
+/-- the witness also meets the hypothesis of `C01_engine_text_partial` (the two Error() functions agree on it) -/
+theorem exE_EngOK : EngOK exE := ⟨exE_reg.1, exE_reg.1.1, trivial⟩
 
 /-! ### the verbose form: one numbered entry per visible layer, then the types line -/
 
